@@ -70,3 +70,22 @@ def default_bad(x, seen=[]):
 
 def bytes_vs_str(b):
     return b != ""
+
+
+_last = None
+
+
+def global_bad(x):
+    global _last
+    if _last is None:
+        _last = x
+    return _last
+
+
+def drop_last(log):
+    log2 = log[:-1]
+    return len(log2)
+
+
+def both_tests(a, lo, hi):
+    return 1 if lo <= a and a <= hi else 0
